@@ -303,7 +303,7 @@ def l6(repo, res, canon):
         for lp in [n for n in walk_no_nested(f.node) if isinstance(n, ast.For)]:
             takes_here = [n for n in ast.walk(lp) if isinstance(n, ast.Call) and isinstance(n.func, ast.Attribute)
                           and isinstance(n.func.value, ast.Name) and n.func.value.id in free
-                          and n.func.attr in ('remove', 'pop')]
+                          and n.func.attr in ('remove', 'pop', 'popleft')]
             if not takes_here or any(isinstance(x, ast.For) and x is not lp and any(
                     t is y for t in takes_here for y in ast.walk(x)) for x in ast.walk(lp)):
                 continue
@@ -319,7 +319,7 @@ def l6(repo, res, canon):
                         continue
                     for x in ast.walk(e.node):
                         if isinstance(x, ast.Call) and isinstance(x.func, ast.Attribute) and isinstance(
-                                x.func.value, ast.Name) and x.func.value.id in free and x.func.attr in ('remove', 'pop'):
+                                x.func.value, ast.Name) and x.func.value.id in free and x.func.attr in ('remove', 'pop', 'popleft'):
                             takes += 1
                     if isinstance(e.node, ast.Assign):
                         for t in e.node.targets:
